@@ -361,7 +361,8 @@ type Clause struct {
 	Text string
 	E    *SExpr
 	N    int // ordinal within its kind (1-based)
-	Assume bool // at-call clause that is assumed (an explicit, listed assumption about the input) instead of proved
+	Assume bool
+	Bind   string // `at call … bind name = expr`: ghost local // at-call clause that is assumed (an explicit, listed assumption about the input) instead of proved
 }
 
 type LoopSpec struct {
@@ -624,8 +625,19 @@ func (cs *ContractSet) parseContractFile(pkgPath, file string) {
 				cur.CallAsserts = append(cur.CallAsserts, &Clause{Text: "return#" + f[1], E: e, N: len(cur.CallAsserts) + 1})
 				continue
 			}
+			if len(f) >= 7 && f[0] == "call" && f[3] == "bind" && f[5] == "=" {
+				// at call <callee> <n> bind <name> = <expr>: a ghost local holding the value of expr just before that call
+				ex := strings.TrimSpace(rest[strings.Index(rest, " = ")+3:])
+				e, err := parseSpec(ex)
+				if err != nil {
+					errf(ln, "%v", err)
+					continue
+				}
+				cur.CallAsserts = append(cur.CallAsserts, &Clause{Text: f[1] + "#" + f[2], E: e, N: len(cur.CallAsserts) + 1, Bind: f[4]})
+				continue
+			}
 			if len(f) < 5 || f[0] != "call" || (f[3] != "assert" && f[3] != "assume") {
-				errf(ln, "at call <callee> <n> assert|assume <expr> | at return <n> assert <expr>")
+				errf(ln, "at call <callee> <n> assert|assume <expr> | at call <callee> <n> bind <name> = <expr> | at return <n> assert <expr>")
 				continue
 			}
 			kw := " " + f[3] + " "
